@@ -40,6 +40,10 @@ type HandSpec struct {
 	Lie string
 	// PackedBlockSizes: BlockSizes written as one packed run (legal protobuf)
 	PackedBlockSizes bool
+	// FieldOrder "reversed": the fields of every UnixFS Data message are written
+	// in reverse order (block sizes and file size before the type; protobuf
+	// field order carries no meaning)
+	FieldOrder string
 	// RootData: "" | "empty" (the root's UnixFS message has a Data field of
 	// length 0 although it has links: present-but-empty, legal)
 	RootData string
@@ -112,6 +116,11 @@ func HandFamily() []HandSpec {
 				if (lk == "pbfile" || lk == "raw") && bs == "all" {
 					out = append(out, HandSpec{Label: fmt.Sprintf("hand %s leaves=%s blocksizes=all filesize=true packed", n, lk),
 						Root: shapes[n], LeafKind: lk, BlockSizes: bs, FileSize: true, Tsize: true, PackedBlockSizes: true})
+				}
+				// the same with the fields of each UnixFS message in reverse order
+				if (lk == "pbfile" || lk == "raw") && bs == "all" {
+					out = append(out, HandSpec{Label: fmt.Sprintf("hand %s leaves=%s blocksizes=all filesize=true fieldorder=reversed", n, lk),
+						Root: shapes[n], LeafKind: lk, BlockSizes: bs, FileSize: true, Tsize: true, FieldOrder: "reversed"})
 				}
 				// every second leaf inlined in its link; Raw-typed nodes with links
 				if (lk == "raw" || lk == "pbfile") && bs == "all" {
@@ -291,6 +300,31 @@ func (h HandSpec) Build(s *store.Store) (cid.Cid, []byte) {
 			}
 			db = protowire.AppendTag(db, 4, protowire.BytesType)
 			db = protowire.AppendBytes(db, run)
+		}
+		if h.FieldOrder == "reversed" {
+			// block sizes first (in their own order: element order of a repeated
+			// field is significant), then the other fields last to first
+			var bs, others [][]byte
+			for rest := db; len(rest) > 0; {
+				num, _, n := protowire.ConsumeField(rest)
+				if n < 0 {
+					break
+				}
+				if num == 4 {
+					bs = append(bs, rest[:n])
+				} else {
+					others = append(others, rest[:n])
+				}
+				rest = rest[n:]
+			}
+			var rev []byte
+			for _, r := range bs {
+				rev = append(rev, r...)
+			}
+			for i := len(others) - 1; i >= 0; i-- {
+				rev = append(rev, others[i]...)
+			}
+			db = rev
 		}
 		blk := model.EncodePB(&model.PBNode{Data: db, HasData: true, Links: links})
 		c, _ := V1PB.Sum(blk)
